@@ -6,7 +6,7 @@ open DS.Life
 
 /-! ### tables under relational updates -/
 
-theorem _root_.DS.Life.Upd.sameBut {T : List Nat} {h h' : Heap} {b i : Nat} {c' : Cell} (u : Upd h h' b i c') (hb : b ∈ T) :
+theorem Upd.sameBut {T : List Nat} {h h' : Heap} {b i : Nat} {c' : Cell} (u : Upd h h' b i c') (hb : b ∈ T) :
     SameBut T h h' :=
   ⟨u.next, u.ids, fun x hx => u.out x (fun e => hx (by rw [e]; exact hb))⟩
 
